@@ -114,7 +114,13 @@ def _t_inlines(inl, st):
             out.append(f'<text:span text:style-name="T2">{_t_inlines(i["inl"], st)}</text:span>')
         else:
             raise ValueError(k)
-    return "".join(out)
+    # run_space: the inline pieces of a paragraph are separated by one blank in the source (a single blank between inline elements is a significant character in ODF,
+    # also when it is the only text between a skipped note/annotation anchor and the next span)
+    if not st.opts.get("run_space"):
+        return "".join(out)
+    # ... and a note / annotation anchor sits directly behind the word it belongs to, so the blank behind the anchor is the only separator of the two words around it
+    anchored = [i["k"] in ("note", "cref") for i in inl]
+    return "".join(("" if (n == 0 or anchored[n]) else " ") + piece for n, piece in enumerate(out))
 
 
 def _image_frame(st, idx, anchor="as-char", extra_attrs=""):
